@@ -185,7 +185,8 @@ func ChildMain() {
 	}
 	lim := syscall.Rlimit{Cur: limit, Max: limit}
 	syscall.Setrlimit(syscall.RLIMIT_AS, &lim)
-	debug.SetMaxStack(64 << 20)
+	syscall.Setrlimit(syscall.RLIMIT_CORE, &syscall.Rlimit{}) // GOTRACEBACK=crash aborts: no core files
+	debug.SetMaxStack(16 << 20)
 	debug.SetGCPercent(20)
 	o := DecodeInProc(in.Bytes(), ts[idx].Type)
 	if len(o.Res) > 4000 {
@@ -203,7 +204,7 @@ func ChildMain() {
 // "fail oom"; a child that does not finish gets SIGQUIT (for the goroutine dump) and is "fail hang".
 func DecodeInChild(idx int, in Input, asLimit uint64, timeout time.Duration) Outcome {
 	cmd := exec.Command(os.Args[0])
-	cmd.Env = append(os.Environ(), fmt.Sprintf("%s=%d %d %s", childEnv, idx, asLimit, in.String()), "GOTRACEBACK=all", "GOMAXPROCS=2")
+	cmd.Env = append(os.Environ(), fmt.Sprintf("%s=%d %d %s", childEnv, idx, asLimit, in.String()), "GOTRACEBACK=crash", "GOMAXPROCS=2")
 	var so, se bytes.Buffer
 	cmd.Stdout, cmd.Stderr = &so, &se
 	if err := cmd.Start(); err != nil {
@@ -211,27 +212,45 @@ func DecodeInChild(idx int, in Input, asLimit uint64, timeout time.Duration) Out
 	}
 	done := make(chan error, 1)
 	go func() { done <- cmd.Wait() }()
-	hang := false
-	select {
-	case <-done:
-	case <-time.After(timeout):
-		hang = true
-		cmd.Process.Signal(syscall.SIGQUIT)
+	hang, grew := false, false
+	deadline := time.After(timeout)
+	tick := time.NewTicker(40 * time.Millisecond)
+	defer tick.Stop()
+wait:
+	for {
 		select {
 		case <-done:
-		case <-time.After(3 * time.Second):
-			cmd.Process.Kill()
-			<-done
+			break wait
+		case <-deadline:
+			hang = true
+		case <-tick.C:
+			if rssBytes(cmd.Process.Pid) > rssLimit {
+				grew = true
+			}
+		}
+		if hang || grew {
+			// ask the Go runtime of the child for its goroutine dump, then make sure it is gone
+			cmd.Process.Signal(syscall.SIGQUIT)
+			select {
+			case <-done:
+			case <-time.After(3 * time.Second):
+				cmd.Process.Kill()
+				<-done
+			}
+			break wait
 		}
 	}
 	stack := se.String()
-	if len(stack) > 6000 {
-		stack = stack[:6000]
+	if i := strings.Index(stack, "github.com/gopcua/opcua/ua."); i > 2000 {
+		stack = stack[:1000] + "\n…\n" + stack[i-200:] // keep the head (the fatal error) and the first frames inside the library
+	}
+	if len(stack) > 12000 {
+		stack = stack[:12000]
 	}
 	switch {
 	case strings.Contains(stack, "stack overflow") || strings.Contains(stack, "stack exceeds"):
 		return Outcome{Res: "fail stack-overflow", Stack: stack}
-	case strings.Contains(stack, "out of memory") || strings.Contains(stack, "cannot allocate memory"):
+	case grew || strings.Contains(stack, "out of memory") || strings.Contains(stack, "cannot allocate memory"):
 		return Outcome{Res: "fail oom", Stack: stack}
 	case hang:
 		return Outcome{Res: "fail hang", Stack: stack}
@@ -241,6 +260,23 @@ func DecodeInChild(idx int, in Input, asLimit uint64, timeout time.Duration) Out
 		return Outcome{Res: "fail crash", Stack: stack}
 	}
 	return Outcome{Res: line, Stack: stack}
+}
+
+// resident set limit of a child: a decoder that keeps allocating is stopped here (the address space limit only
+// catches single huge requests; the Go runtime itself needs a few GiB of address space)
+const rssLimit = 500 << 20
+
+func rssBytes(pid int) uint64 {
+	b, err := os.ReadFile(fmt.Sprintf("/proc/%d/statm", pid))
+	if err != nil {
+		return 0
+	}
+	f := strings.Fields(string(b))
+	if len(f) < 2 {
+		return 0
+	}
+	n, _ := strconv.ParseUint(f[1], 10, 64)
+	return n * uint64(os.Getpagesize())
 }
 
 // ---------------------------------------------------------------- malformed inputs
@@ -265,9 +301,11 @@ func Mutate(r *h.Rand, b []byte) []byte {
 			}
 		case 2, 3:
 			if len(b) >= 4 {
-				v := Hostile[r.Intn(len(Hostile))]
+				v := Hostile[r.Intn(7)] // -2, -1, 0, 1, 2, 65535, 65536
 				if r.Chance(25) {
 					v = uint32(r.Intn(70000))
+				} else if r.Chance(8) {
+					v = Hostile[r.Intn(len(Hostile))]
 				}
 				binary.LittleEndian.PutUint32(b[r.Intn(len(b)-3):], v)
 			}
